@@ -309,7 +309,7 @@ def run(chk, scratch):
         def one(v):
             name, dd, k = v
             out = os.path.join(dd, "out")
-            r = pipeline.run(dd, out, data_type=dt, threads=2, extra=extra)
+            r = pipeline.run(dd, out, data_type=dt, threads=1 + (seed + len(kind)) % 2, extra=extra)
             return v, out, r
         outs = {}
         for v, out, r in runner.parallel(one, variants, workers=8):
